@@ -46,7 +46,11 @@ static void vf_pass(u_int64_t ps, u_int64_t sInc, u_int64_t maxBatchPow, u_int64
 
 void hl_NTT_iters(void)
 {
-  u_int32_t s_obj; u_int64_t dp, nphase; _Bool inverse, extend, dst_null;
+  /* narrow nondeterministic sources keep the high bits of the operands of the two divisions syntactically zero; the case split on
+   * nphase is exhaustive: [0, 255] and (255, 2^64) - in the second range the function clamps nphase to domainPow before using it */
+  unsigned char s8, dp8, np8; _Bool np_big; u_int64_t np_hi; _Bool inverse, extend, dst_null;
+  u_int32_t s_obj = s8; u_int64_t dp = dp8; u_int64_t nphase = np8;
+  if (np_big) { __CPROVER_assume(np_hi > 255); nphase = np_hi; }
   __CPROVER_assume(s_obj <= 32 && dp <= s_obj && dp <= 30);
   uint64_t vf_ins = s_obj, vf_indp = dp, vf_innphase = nphase, vf_ininv = inverse; (void)vf_ins; (void)vf_indp; (void)vf_innphase; (void)vf_ininv;
   s = s_obj; nThreads = 4; extension = 1;
@@ -58,6 +62,7 @@ void hl_NTT_iters(void)
   __CPROVER_assert(g_stage == dp, "NTT_iters.postcondition.2 (light): all domainPow butterfly stages executed");
   __CPROVER_assert(g_cur == g_dst_, "NTT_iters.postcondition.3 (light): the result lands in the destination buffer");
   __CPROVER_assert(!inverse || dp == 0 || g_scaled, "NTT_iters.postcondition.4 (light): an inverse transform is scaled");
+  __CPROVER_assert(s == s_obj && nThreads == 4 && extension == 1, "NTT_iters.postcondition.5 (light): the object's configuration (s, nThreads, extension) is unchanged (C19 frame)");
   VF_SENTINEL;
 }
 /* ---- log2 and the bit reversal BR */
